@@ -87,12 +87,14 @@ class LiteralToken(RegexpBaseToken):
         super().__init__(*args, *kwargs)
 
         if self.value[2]:
-            real_value = int(self.value[2])
-            if self.value[5]:
-                real_value += float(f'0.{self.value[5]}')
-            if self.value[7]:
-                # TODO in theory, the degree can be calculated using the expression
-                real_value *= 10 ** int(self.value[7])
+            if self.value[5] or (self.value[7] and self.value[7].startswith('-')):
+                # a decimal text denotes the nearest double: convert it in one step
+                real_value = float(f'{self.value[2]}.{self.value[5] or 0}e{self.value[7] or 0}')
+            else:
+                real_value = int(self.value[2])
+                if self.value[7]:
+                    # TODO in theory, the degree can be calculated using the expression
+                    real_value *= 10 ** int(self.value[7])
             real_value = str(real_value)
         elif self.value[1] or self.value[0] == '""':
             real_value = f'\'{self.value[1]}\''
